@@ -3812,6 +3812,7 @@ ZBUFFv05_DCtx* ZBUFFv05_createDCtx(void)
     if (zbc==NULL) return NULL;
     memset(zbc, 0, sizeof(*zbc));
     zbc->zc = ZSTDv05_createDCtx();
+    if (zbc->zc==NULL) { free(zbc); return NULL; }
     zbc->stage = ZBUFFv05ds_init;
     return zbc;
 }
@@ -3904,13 +3905,13 @@ size_t ZBUFFv05_decompressContinue(ZBUFFv05_DCtx* zbc, void* dst, size_t* maxDst
                         free(zbc->inBuff);
                         zbc->inBuffSize = neededInSize;
                         zbc->inBuff = (char*)malloc(neededInSize);
-                        if (zbc->inBuff == NULL) return ERROR(memory_allocation);
+                        if (zbc->inBuff == NULL) { zbc->inBuffSize = 0; return ERROR(memory_allocation); }   /* no size without a buffer : the context may be used again */
                     }
                     if (zbc->outBuffSize < neededOutSize) {
                         free(zbc->outBuff);
                         zbc->outBuffSize = neededOutSize;
                         zbc->outBuff = (char*)malloc(neededOutSize);
-                        if (zbc->outBuff == NULL) return ERROR(memory_allocation);
+                        if (zbc->outBuff == NULL) { zbc->outBuffSize = 0; return ERROR(memory_allocation); }   /* no size without a buffer : the context may be used again */
                 }   }
                 if (zbc->hPos) {
                     /* some data already loaded into headerBuffer : transfer into inBuff */
